@@ -77,6 +77,16 @@ static void* fiber_prog(void* param) {
         r = (fiber_join(c, &res) == FIBER_SUCCESS && res == (void*)(intptr_t)a) ? 0 : 7;
         break;
       }
+      case 15: fiber_cond_signal(&cond); break;      /* signal WITHOUT holding the user mutex */
+      case 16: fiber_cond_broadcast(&cond); break;   /* broadcast WITHOUT holding the user mutex */
+      case 17:   /* wait on the condition twice in a row (re-wait immediately), no predicate */
+        if (!held[0] && !held[1]) {
+          fiber_mutex_lock(&mtx[0]);
+          fiber_cond_wait(&cond, &mtx[0]);
+          fiber_cond_wait(&cond, &mtx[0]);
+          fiber_mutex_unlock(&mtx[0]);
+        }
+        break;
       case 12: {  /* block in read() on a socket that another fiber then closes (fd wait woken with an error) */
         int sv[2];
         if (held[0] || held[1]) break;   /* the main fiber needs mutex 0 to keep everybody going */
